@@ -8,6 +8,7 @@ mod props;
 mod conc;
 mod conc2;
 mod comp;
+mod admission;
 
 use std::collections::HashMap;
 
